@@ -160,6 +160,7 @@ func (c *Ctx) ErrIdentity(rule string, consumer *ssa.Function, predicates ...str
 		d  int
 	}
 	visited := map[*ssa.Function]bool{}
+	stickySeen := map[interface{}]bool{}
 	var queue []item
 	for _, p := range producers {
 		queue = append(queue, item{p, 0})
@@ -189,7 +190,21 @@ func (c *Ctx) ErrIdentity(rule string, consumer *ssa.Function, predicates ...str
 				continue
 			}
 			nRet++
-			for _, leaf := range errLeaves(ret.Results[len(ret.Results)-1]) {
+			leaves := errLeaves(ret.Results[len(ret.Results)-1])
+			// a sticky error field: whatever any function of the module stores into it
+			for i := 0; i < len(leaves) && i < 64; i++ {
+				f := fieldOfValue(leaves[i])
+				if _, isLoad := leaves[i].(*ssa.UnOp); !isLoad || f == nil || stickySeen[f] {
+					continue
+				}
+				stickySeen[f] = true
+				for _, g := range c.P.AllFuncs {
+					for _, st := range instrs(g, StoreTo(f)) {
+						leaves = append(leaves, errLeaves(st.(*ssa.Store).Val)...)
+					}
+				}
+			}
+			for _, leaf := range leaves {
 				call, ok := leaf.(*ssa.Call)
 				if !ok {
 					continue
@@ -222,9 +237,31 @@ func (c *Ctx) ErrIdentity(rule string, consumer *ssa.Function, predicates ...str
 		}
 	}
 	if len(compared) == 0 {
-		c.Unresolved(rule, "no identity comparison of an error found in "+QName(consumer))
+		return -1
 	}
 	return nFuncs
+}
+
+// ErrIdentityIn runs ErrIdentity on fn and on its closures; the rule is unresolved when
+// none of them compares an error by identity, or when fewer than min functions were examined.
+func (c *Ctx) ErrIdentityIn(rule string, fn *ssa.Function, min int, predicates ...string) {
+	total, found := 0, false
+	var visit func(f *ssa.Function)
+	visit = func(f *ssa.Function) {
+		if n := c.ErrIdentity(rule, f, predicates...); n >= 0 {
+			found = true
+			total += n
+		}
+		for _, a := range f.AnonFuncs {
+			visit(a)
+		}
+	}
+	visit(fn)
+	if !found {
+		c.Unresolved(rule, "no identity comparison of an error found in "+QName(fn))
+	} else if total < min {
+		c.Unresolved(rule, fmt.Sprintf("only %d functions found below the identity-compared errors of %s (at least %d expected)", total, QName(fn), min))
+	}
 }
 
 func shortFn(fn *ssa.Function) string {
